@@ -139,6 +139,12 @@ def r02_3(ctx, run, rule='R02.3'):
     (run.proved if other_err else run.violation)(rule, b.path, 'escape[other]', 'any other escaped character is an error' if other_err else 'an unknown escape character is not rejected', loc)
 
 
+def local_callee(e):
+    """path of the crate-local function a call event resolves to, else None"""
+    c = e[5].get('callee', {}) if isinstance(e[5], dict) else {}
+    return c.get('resolved') if c.get('resolved_local') else None
+
+
 def r02_5(ctx, run, rule='R02.5'):
     f = ctx.facts
     b = f.bodies.get(P + 'parse')
@@ -148,6 +154,7 @@ def r02_5(ctx, run, rule='R02.5'):
     ps, _ = explore(b)
     n = 0
     bad = 0
+    unread = 0
     for p in ps:
         if p.end[0] != 'return' or not (agg_variant(p.ret) and p.ret[1][2] == 'Ok'):
             continue
@@ -169,7 +176,22 @@ def r02_5(ctx, run, rule='R02.5'):
                             at_end = True
         ok = ok and at_end
         if not ok:
-            bad += 1
+            # a crate-local helper this rule has no name for (a renamed whitespace skipper, a new end-of-input check) is called after the value
+            # was parsed: what it consumes or checks is not read here
+            after = 'parse_json_value' not in evs      # the value parser itself may have been renamed: then every local helper on the path is unread
+            for e in p.calls():
+                nm = canon(e[1]).split('::')[-1]
+                if nm == 'parse_json_value':
+                    after = True
+                elif after and local_callee(e) and nm not in ('skip_unused', 'error', 'parse_json_value'):
+                    unread += 1
+                    break
+            else:
+                bad += 1
+    if n and not bad and unread:
+        run.undecided(rule, b.path, 'trailing-check', f'{unread} successful path(s) end after a call to a helper this rule does not know by name (renamed whitespace skipper / end check?): '
+                      'whether trailing characters are rejected is not decided', f'{b.file}:{b.line}')
+        return
     (run.proved if n and not bad else run.violation)(rule, b.path, 'trailing-check', 'Ok only after skip_unused and idx >= len' if n and not bad else
                                                       'a successful return is possible with unconsumed non-whitespace input: trailing characters are accepted', f'{b.file}:{b.line}')
 
@@ -211,6 +233,8 @@ def number_signatures(ctx):
                         okdigits = False
             elif n in ('next', 'must_is', 'step_by') and called(e[1], 'Parser::' + n):
                 other.append(n)
+            elif local_callee(e) and n not in ('error',):
+                other.append('helper:' + n)      # a crate-local helper outside the vocabulary this rule reads (renamed / new)
             elif called(e[1], 'Index::index') and not any(called(x[1], 'str::from_utf8_unchecked') for x in p.calls() if x[6] >= e[6] and x is not e and x[3] == e[3]):
                 pass
         # any direct indexing of the buffer inside the lexer is outside the helper vocabulary
@@ -261,6 +285,12 @@ def r02_6_11(ctx, run, rule_cls='R02.6', rule_lex='R02.11'):
             ok = False
         if not ok:
             cls_bad.append(f'{kind} produced for sign={neg} fraction={frac} exponent={exp} via {[x.split("::")[-1] for x in parsers]}')
+    unread_h = sorted({o for (_, _, _, _, other, _) in sigs for o in other if o.startswith('helper:')})
+    if unread_h:
+        run.undecided(rule_lex, b.path, 'number-grammar', f'the number lexer calls helper(s) this rule does not know by name ({", ".join(h[7:] for h in unread_h[:4])}): '
+                      'the sequence of cursor tests on its accepting paths is not decided', loc)
+        run.undecided(rule_cls, b.path, 'classification', 'not decided (the lexer shape was not read)', loc)
+        return
     if bad:
         run.violation(rule_lex, b.path, 'number-grammar', 'an accepting path of the number lexer does not follow  -? (0 | [1-9][0-9]*) (\\.[0-9]+)? ([eE][+-]?[0-9]+)?  '
                       'as a sequence of cursor tests at the cursor: ' + ' | '.join(sorted(set(bad))[:2]), loc)
